@@ -173,7 +173,7 @@ static void DecodeAdr(tStrComp const* pArg, Byte Mask, int Segment) {
         while ((p >= pArg->str.p_str) && (*p != '(')) {
             p--;
         }
-        if (*p != '(') {
+        if (p < pArg->str.p_str) {
             WrError(ErrNum_BrackErr);
         } else {
             tStrComp RegComp, DispComp;
